@@ -139,6 +139,7 @@ func (x *Exec) inline(st *State, callee *ssa.Function, args []Value, bindings []
 		nfr.contract = ct // loop unroll hints still apply
 	}
 	sub := &State{PC: st.PC, Heap: st.Heap, Alloc: st.Alloc, Env: map[ssa.Value]Value{}}
+	x.copyGhost(st.Env, sub.Env)
 	// parameter types follow the callee's signature
 	for i, p := range callee.Params {
 		if i < len(args) {
@@ -149,6 +150,7 @@ func (x *Exec) inline(st *State, callee *ssa.Function, args []Value, bindings []
 	res, out := x.ExecFunc(nfr, sub)
 	x.stack = x.stack[:len(x.stack)-1]
 	st.PC, st.Heap, st.Alloc = out.PC, out.Heap, out.Alloc
+	x.copyGhost(out.Env, st.Env)
 	return res
 }
 
@@ -598,6 +600,11 @@ func (x *Exec) applyContract(st *State, ct *Contract, callee *ssa.Function, args
 	bindResult(post, callee, res)
 	for _, en := range ct.Ensures {
 		x.assume(st, post.evalBool(en.Expr))
+	}
+	for _, gs := range ct.Sets {
+		if gk, ok := x.ghostKeys[gs.By]; ok {
+			st.Env[gk] = post.eval(gs.Expr)
+		}
 	}
 	return res
 }
@@ -1173,4 +1180,13 @@ func allScalar(args []Value) bool {
 		}
 	}
 	return true
+}
+
+// copyGhost carries the ghost variables (synthetic Env keys) across a call boundary.
+func (x *Exec) copyGhost(from, to map[ssa.Value]Value) {
+	for _, k := range x.ghostKeys {
+		if v, ok := from[k]; ok {
+			to[k] = v
+		}
+	}
 }
